@@ -1,5 +1,6 @@
 import QibModel.DriverMain
 import QibModel.BackendOps
+import QibModel.ValidateOps
 open Lean Qib
 
 def backendDispatch : Dispatch := fun op j =>
@@ -7,6 +8,10 @@ def backendDispatch : Dispatch := fun op j =>
   | "http.history" => some (Backend.opHttpHistory j)
   | "exp.history" => some (Backend.opExpHistory j)
   | "status.map" => some (Backend.opStatusMap j)
+  | "wmi.validate" => some (Wmi.opValidate j)
+  | "wmi.qobj" => some (Wmi.opQobj j)
+  | "wmi.counts" => some (Wmi.opCounts j)
+  | "wmi.submit" => some (Wmi.opSubmit j)
   | _ => none
 
 def main : IO Unit := driverMain backendDispatch
